@@ -357,7 +357,9 @@ def run(ctx):
                          [str(x)[:60] for x in real], exp)
         # ---- credentials
         reqs, reals = [], []
-        pool = ["user", "u", "ü", "a b", "~", "??>", "x" * 40, "€", "p:w:d", "", "+/=", "\U0001d11e"]
+        pool = ["user", "u", "ü", "a b", "~", "??>", "x" * 40, "€", "p:w:d", "", "+/=", "\U0001d11e",
+                # not in any Unicode normal form: the server recovers these code points, not equivalent ones
+                "e\u0308", "\u212b", "o\u0301x", "\u1e9b\u0323"]
         for _ in range(ctx.pick(150, 3000)):
             user = rng.choice(pool).replace(":", "") if rng.random() < 0.8 else "".join(
                 chr(rng.randint(0x20, 0x2ff)) for _ in range(rng.randint(1, 6))).replace(":", "")
